@@ -330,7 +330,7 @@ fn family_c(max_segments: usize) -> Vec<Vec<Stmt>> {
                         };
                         let mut pairs = vec![("name".to_string(), string(names[i])), ("start".to_string(), start)];
                         if cfg[i].1 == 1 {
-                            pairs.push(("pc".to_string(), lit("$8000")));
+                            pairs.push(("pc".to_string(), lit("$8003")));
                         }
                         prog.push(Stmt::Define {
                             kind: "segment",
@@ -355,6 +355,12 @@ fn family_c(max_segments: usize) -> Vec<Vec<Stmt>> {
                             label(&format!("l{}", i)),
                             word(vec![id(&sym)]),
                             ins("ldx", Form::PlainY, id(&format!("l{}", (j + 1) % n))),
+                            // alignment and a branch: both are a matter of the run address (`pc`), not of where the
+                            // segment is stored
+                            Stmt::Align(num(8)),
+                            label(&format!("t{}", i)),
+                            imp("dex"),
+                            ins("bne", Form::Plain, id(&format!("t{}", i))),
                         ];
                         // (switch to the segments in reverse order, so that the last switch of a pass is not
                         // the segment the next pass has to start in)
